@@ -185,8 +185,8 @@ class STr(MTr):
         return super().block(stmts, env, k, ret)
 
 
-def stop_method(mod, src, cls, params, obj_is, fname):
-    fn = normalise(find_def(mod, "__call__", cls), sums=False)
+def stop_method(mod, src, cls, params, obj_is, fname, fn=None):
+    fn = normalise(fn if fn is not None else find_def(mod, "__call__", cls), sums=False)
     argn = [a.arg for a in fn.args.args]
     if len(argn) != 2 or argn[0] != "self":
         raise Unsupported(f"{src}:{fn.lineno}: {cls}.__call__ signature changed: {argn}")
@@ -232,8 +232,85 @@ def translate(repo):
         fns.append(f"{src}:{cls}.__call__[{obj}]")
     out.append(transform_weights(gmod))
     fns += [f"{GSC}:FitnessEvalLimitReached._transform_weights", f"{GSC}:FitnessEvalLimitReached.__call__[weights guard]"]
+    out.append(steadiness_early(lmod))
+    fns.append(f"{LSC}:FitnessSteadiness.__call__[early return; window]")
     fns.append(f"{GSC}:SingularProblemPrecisionReached.__call__")
     return {"GenStops.v": "\n".join(out), "GenStopsPrecision.v": precision_reached(gmod)}, fns
+
+
+# ---------------------------------------------------------------- FitnessSteadiness: the part that is not float arithmetic
+def steadiness_early(lmod):
+    """FitnessSteadiness.__call__ = [statements that may return early on counters] + [a side-effect-free float computation over the last
+    n_metaepochs entries of the deme's history, returned].  The first part is translated (True = no early return: the verdict is the float
+    computation's, an oracle of the machine); the second is checked for shape only: no assignment to attributes or subscripts, one return at
+    the end, and the history is read at the entries range(-self.n_metaepochs, 0) (or the slice [-self.n_metaepochs:]) and nowhere else."""
+    cls = "FitnessSteadiness"
+    fn = find_def(lmod, "__call__", cls)
+    argn = [a.arg for a in fn.args.args]
+    if len(argn) != 2 or argn[0] != "self":
+        raise Unsupported(f"{LSC}:{fn.lineno}: {cls}.__call__ signature changed: {argn}")
+    dn = argn[1]
+
+    def floaty(st):
+        return any((isinstance(n, ast.Attribute) and n.attr in ("_history", "history", "fitness")) or (isinstance(n, ast.Name) and n.id in ("np", "numpy", "math", "statistics")) for n in ast.walk(st))
+    body = [st for st in fn.body if not (isinstance(st, ast.Expr) and isinstance(st.value, ast.Constant))]
+    k = next((i for i, st in enumerate(body) if floaty(st)), len(body))
+    prefix, rest = body[:k], body[k:]
+    if not rest or not isinstance(rest[-1], ast.Return) or rest[-1].value is None:
+        raise Unsupported(f"{LSC}:{fn.lineno}: {cls}.__call__ does not end in the return of its float computation")
+    for st in rest:
+        for n in ast.walk(st):
+            if isinstance(n, ast.Return) and n is not rest[-1]:
+                raise Unsupported(f"{LSC}:{n.lineno}: {cls}.__call__: a return inside the float computation")
+            if isinstance(n, (ast.Assign, ast.AugAssign, ast.AnnAssign)):
+                for t in (n.targets if isinstance(n, ast.Assign) else [n.target]):
+                    if not isinstance(t, ast.Name):
+                        raise Unsupported(f"{LSC}:{n.lineno}: {cls}.__call__: the float computation assigns to {ast.unparse(t)[:60]}")
+            if isinstance(n, (ast.Delete, ast.Global, ast.Nonlocal, ast.While, ast.Raise, ast.Try, ast.With)):
+                raise Unsupported(f"{LSC}:{n.lineno}: {cls}.__call__: statement not expected in the float computation")
+            if isinstance(n, ast.Call) and isinstance(n.func, ast.Attribute) and n.func.attr in ("append", "extend", "pop", "clear", "insert", "remove", "sort", "reverse", "update", "setdefault") \
+                    and any(isinstance(m, ast.Name) and m.id in ("self", dn) for m in ast.walk(n.func.value)):
+                raise Unsupported(f"{LSC}:{n.lineno}: {cls}.__call__: the float computation mutates {ast.unparse(n.func.value)[:60]}")
+    # the window of history entries
+    want = ast.dump(ast.parse("range(-self.n_metaepochs, 0)", mode="eval").body)
+    window_vars = set()
+    for st in rest:
+        for n in ast.walk(st):
+            if isinstance(n, ast.comprehension) and isinstance(n.iter, ast.Call) and dotted(n.iter.func) == "range":
+                if ast.dump(n.iter) != want or not isinstance(n.target, ast.Name):
+                    raise Unsupported(f"{LSC}:{fn.lineno}: {cls}.__call__: window of metaepochs is not range(-self.n_metaepochs, 0): {ast.unparse(n.iter)[:60]}")
+                window_vars.add(n.target.id)
+            if isinstance(n, ast.For):
+                raise Unsupported(f"{LSC}:{n.lineno}: {cls}.__call__: for statement in the float computation (comprehensions only)")
+    reads = 0
+    sl_want = ast.dump(ast.parse("x[-self.n_metaepochs:]", mode="eval").body.slice)
+    hist_nodes = []
+    for st in rest:
+        for n in ast.walk(st):
+            if isinstance(n, ast.Subscript) and dotted(n.value) in (f"{dn}._history", f"{dn}.history"):
+                ok = (isinstance(n.slice, ast.Name) and n.slice.id in window_vars) or ast.dump(n.slice) == sl_want
+                if not ok:
+                    raise Unsupported(f"{LSC}:{n.lineno}: {cls}.__call__: history read at {ast.unparse(n.slice)[:60]}")
+                reads += 1
+                hist_nodes.append(id(n.value))
+    for st in rest:
+        for n in ast.walk(st):
+            if isinstance(n, ast.Attribute) and dotted(n) in (f"{dn}._history", f"{dn}.history") and id(n) not in hist_nodes:
+                raise Unsupported(f"{LSC}:{n.lineno}: {cls}.__call__: the whole history is used, not the window")
+    if reads == 0:
+        raise Unsupported(f"{LSC}:{fn.lineno}: {cls}.__call__: the float computation does not read the history window")
+    for st in prefix:
+        for n in ast.walk(st):
+            if isinstance(n, ast.Return) and not (isinstance(n.value, ast.Constant) and isinstance(n.value.value, bool)):
+                raise Unsupported(f"{LSC}:{n.lineno}: {cls}.__call__: early return of something other than a boolean constant")
+    # early returns must all be False (a True before looking at any fitness is not FitnessSteadiness): the synthetic function returns True when none fires
+    for st in prefix:
+        for n in ast.walk(st):
+            if isinstance(n, ast.Return) and n.value.value is not False:
+                raise Unsupported(f"{LSC}:{n.lineno}: {cls}.__call__: early `return True`")
+    synth = ast.FunctionDef(name="__call__", args=fn.args, body=prefix + [ast.Return(value=ast.Constant(value=True))], decorator_list=[], returns=None, lineno=fn.lineno, col_offset=0)
+    ast.fix_missing_locations(synth)
+    return stop_method(lmod, LSC, cls, {"n_metaepochs": ("p_n", "nat")}, "deme", "gen_FitnessSteadiness_early", fn=synth)
 
 
 # ---------------------------------------------------------------- SingularProblemPrecisionReached: reads the flag of the wrapper it was given
